@@ -117,6 +117,9 @@ def check_fault_free(G, item, stats):
             a, b = canon.snap_struct(R.after), canon.snap_struct(canon.snapshot(sh.root))
             if a != b:
                 V('del-effect', 'state-differs-from-plain-del/' + desc, b, a)
+            elif ck in ('SimDict', 'SimList', 'SimObj') and not any(e[3] == 'del' for e in R.k.log):
+                V('del-effect', 'container-own-delete-method-bypassed/' + desc,
+                  "the container's own __delitem__/__delattr__ is called", 'deleted without calling it')
             elif not pathedit.has_wild(item['segs']):
                 changed = [i for i in R.before_ids if i in R.after_ids and R.before_ids[i] != R.after_ids[i]]
                 if len(changed) > 1:
